@@ -33,9 +33,10 @@ PROPS["C20"]["level_text"] = (
     "path near the end of the buffer, 56 padding bits, widths up to 64): bitsreader_refines_spec (ReadBits = the "
     "specification's bit reader at every reachable state), overread_reported_bitsreader (every buffer, every sequence of "
     "widths: Error() is nil exactly while the reads stay inside the buffer, and then the values are the buffer's bits; "
-    "holds since fix f47ea21), bits_roundtrip (WriteBits* ; Close ; ReadBits* returns the values). Not proved at "
-    "register level: ReadUvarintCompact (peek 56 + read tables; read_tables_ok covers the tables, the rest is tied by "
-    "op-for-op correspondence over all 65 classes x 64 alignments).")
+    "holds since fix f47ea21), bits_roundtrip (WriteBits* ; Close ; ReadBits* returns the values), "
+    "uvc_reader_refines_spec / uvc_register_roundtrip (ReadUvarintCompact: peek 56, clz, regenerated READ tables = the "
+    "specification's prefix reader at every reachable state). The codec models above the bit layer (dod, gorilla, "
+    "strings) are stated against bit/byte lists; their Go bodies are tied by op-for-op correspondence.")
 
 PROPS["C09"] = {
     "lean_modules": ["Stef.Props.C09"],
